@@ -50,14 +50,15 @@ type GlobalNode struct {
 }
 
 func (gn *GlobalNode) UpdateConfig(cfg *config.StringMap) (err error) {
-	for key, value := range cfg.Fields {
+	for _, key := range config.SortedKeys(cfg.Fields) {
+		value := cfg.Fields[key]
 		switch key {
 		case MinMintAmount:
 			amount, err := strconv.ParseFloat(value, 64)
 			if err != nil {
 				return fmt.Errorf("key %s, unable to convert %v to currency.Coin", key, value)
 			}
-			gn.MinMintAmount, err = currency.ParseZCN(amount)
+			gn.MinMintAmount, err = config.ParseZCN(amount)
 			if err != nil {
 				return err
 			}
@@ -66,7 +67,7 @@ func (gn *GlobalNode) UpdateConfig(cfg *config.StringMap) (err error) {
 			if err != nil {
 				return fmt.Errorf("key %s, unable to convert %v to currency.Coin", key, value)
 			}
-			gn.MinBurnAmount, err = currency.ParseZCN(amount)
+			gn.MinBurnAmount, err = config.ParseZCN(amount)
 			if err != nil {
 				return err
 			}
@@ -85,7 +86,7 @@ func (gn *GlobalNode) UpdateConfig(cfg *config.StringMap) (err error) {
 			if err != nil {
 				return fmt.Errorf("key %s, unable to convert %v to currency.Coin", key, value)
 			}
-			gn.MinStakeAmount, err = currency.ParseZCN(amount)
+			gn.MinStakeAmount, err = config.ParseZCN(amount)
 			if err != nil {
 				return err
 			}
@@ -94,7 +95,7 @@ func (gn *GlobalNode) UpdateConfig(cfg *config.StringMap) (err error) {
 			if err != nil {
 				return fmt.Errorf("key %s, unable to convert %v to currency.Coin", key, value)
 			}
-			gn.MinStakePerDelegate, err = currency.ParseZCN(amount)
+			gn.MinStakePerDelegate, err = config.ParseZCN(amount)
 			if err != nil {
 				return err
 			}
@@ -103,7 +104,7 @@ func (gn *GlobalNode) UpdateConfig(cfg *config.StringMap) (err error) {
 			if err != nil {
 				return fmt.Errorf("key %s, unable to convert %v to currency.Coin", key, value)
 			}
-			gn.MaxStakeAmount, err = currency.ParseZCN(amount)
+			gn.MaxStakeAmount, err = config.ParseZCN(amount)
 			if err != nil {
 				return err
 			}
@@ -111,6 +112,9 @@ func (gn *GlobalNode) UpdateConfig(cfg *config.StringMap) (err error) {
 			amount, err := strconv.ParseFloat(value, 64)
 			if err != nil {
 				return fmt.Errorf("key %s, unable to convert %v to currency.Coin", key, value)
+			}
+			if !(amount >= 0 && amount < 18446744073709551616.0) {
+				return fmt.Errorf("key %s, %v is not a token amount", key, value)
 			}
 			gn.MaxFee = currency.Coin(amount)
 		case OwnerID:
